@@ -214,7 +214,10 @@ type c09Sys struct {
 func (s *c09Sys) Apply(op int) error {
 	got := c09Ask(s.impl, s.probes[op])
 	if got != s.want[op] {
-		return fmt.Errorf("answer depends on lookup history: got %s, reference %s", got, s.want[op])
+		if got == s.fresh[op] {
+			return fmt.Errorf("answer differs from the first-match reference (as on a fresh set): got %s, reference %s", got, s.want[op])
+		}
+		return fmt.Errorf("answer depends on lookup history: got %s, reference and freshly compiled set %s", got, s.want[op])
 	}
 	if got != s.fresh[op] {
 		return fmt.Errorf("answer depends on lookup history: got %s, freshly compiled set %s", got, s.fresh[op])
@@ -319,6 +322,9 @@ func (c *c09Ctx) bfsList(p *evidence.Part, list []int, size, depth int) bool {
 		}
 		last := res.History[len(res.History)-1]
 		clause := "lookup after a history differs from the fresh lookup"
+		if strings.Contains(res.Violation.Error(), "as on a fresh set") {
+			clause = "lookup differs from the first-match reference"
+		}
 		if strings.Contains(res.Violation.Error(), "cache entry") || strings.Contains(res.Violation.Error(), "history dependence") || strings.Contains(res.Violation.Error(), "cache holds") {
 			clause = "decision cache state is wrong after a history"
 		}
